@@ -37,6 +37,11 @@ def dec_operand(o):
     if k == 'np':
         arr = np.array(v, dtype=o.get('dtype', 'float'))
         return arr
+    if k == 'buffer':
+        # a Sequence that also exports its memory (array.array): NumPy can wrap it without copying
+        import array
+        tc = o.get('typecode', 'd')
+        return array.array(tc, [float(x) if tc == 'd' else int(x) for x in v])
     raise ValueError(o)
 
 
@@ -53,9 +58,10 @@ DTYPES = {'float': float, 'int': int, 'bool': bool, 'str': str, 'U2': '<U2', Non
 # -- objects under test ---------------------------------------------------------------------------------
 
 
-def make_object(kind, span_desc, strict=False, dtype=None):
+def make_object(kind, span_desc, strict=False, dtype=None, strict_rep=0):
     """`dtype`: the default dtype handed to a model / linker constructor (None = the library default, float)."""
     extra = {} if dtype is None else {'dtype': dtype}
+    strict = [strict, np.bool_(strict), int(strict)][strict_rep % 3]      # the same flag in another representation
     span = spans.build(span_desc)
     n = len(span)
     if kind == 'container':
@@ -136,7 +142,7 @@ def apply_op(obj, op, labels, keep=None):
 
         def dec_and_keep(o):
             v = original(o)
-            if isinstance(v, np.ndarray):
+            if isinstance(v, np.ndarray) or type(v).__name__ == 'array':
                 keep.append(v)
             return v
         dec_operand = dec_and_keep
@@ -165,7 +171,9 @@ def apply_op(obj, op, labels, keep=None):
     if kind == 'add_attribute':
         return attempt(obj.add_attribute, op[1], dec_scalar(op[2]))
     if kind == 'strict':
-        return attempt(setattr, obj, 'strict', op[1])
+        # optional third element: the same truth value as np.bool_ (1) or int (2)
+        flag = [op[1], np.bool_(op[1]), int(op[1])][op[2] % 3] if len(op) > 2 else op[1]
+        return attempt(setattr, obj, 'strict', flag)
     if kind == 'inplace':
         name = pick_name(obj, op[1])
         return attempt(lambda: obj[name].__setitem__(op[2] % max(1, len(labels)), dec_scalar(op[3])))
@@ -200,6 +208,8 @@ def operands(n):
         st.sampled_from([n, n, n + 1, 1]).map(lambda v: {'range': v}),
         nested.map(lambda v: {'nested': v}),
         nparr,
+        numseq.map(lambda v: {'buffer': [float(x) for x in v], 'typecode': 'd'}),
+        numseq.map(lambda v: {'buffer': [int(x) for x in v], 'typecode': 'q'}),
     )
 
 
@@ -232,7 +242,7 @@ def op_strategy(n, *, existing_only=False, with_solve=False):
         ops += [
             st.tuples(st.just('add_variable'), nm, o, st.sampled_from([None, None, 'float', 'int', 'bool', 'str', 'U2'])).map(list),
             st.tuples(st.just('add_attribute'), st.sampled_from(['note', 'X', 'span', 'k', 'index', 's', 'sub', 'models', 'e', 'pan', 'tes', 'x']), st.sampled_from([1, {'s': 'v'}])).map(list),
-            st.tuples(st.just('strict'), st.booleans()).map(list),
+            st.tuples(st.just('strict'), st.booleans(), st.sampled_from([0, 0, 1, 2])).map(list),
         ]
     if with_solve:
         ops.append(st.just(['solve']))
